@@ -47,7 +47,9 @@ func lookupIntrinsic(fn *ssa.Function, name string) intrinsic {
 	}
 	if fn.Pkg != nil {
 		switch fn.Pkg.Pkg.Path() {
-		case "github.com/davecgh/go-spew/spew":
+		case "github.com/davecgh/go-spew/spew", "net/netip", "internal/godebug", "unique", "context", "internal/poll", "os", "internal/singleflight", "internal/nettrace":
+			// inert packages: only reached from package initialisers or diagnostics; every
+			// function returns the zero value of its results
 			return func(m *Machine, fr *frame, fn *ssa.Function, args []value) (value, bool) {
 				return zeroResults(fn), true
 			}
